@@ -177,6 +177,7 @@ def r6(ctx):
     # the members the index iterates over belong to the model it is asked about: a copy that shares its cluster objects with its
     # source reports the source's membership after either of them is relabelled
     ctx.sub(c13.r5, only=("deep-copy:containers.model_state.ModelState", "deep-copy:containers.model_state.ClusterParameters"))
+    c09.lifecycle(ctx, {"index-state"})
     src = mean_source(ctx.ana)
     fi = ctx.ana.func(CH)
     if src == "own":
